@@ -310,13 +310,17 @@ def make_writer(cfg, chdir, uuid="verif-uuid"):
 def input_form(cfg, arr, which):
     """the writer accepts complex data as ('r','i') struct arrays, as native complex arrays (float
     types) and as interleaved real arrays of shape (N, 2*nsub); all must store the same bytes"""
-    if not cfg.is_complex or arr.shape[0] == 0:
+    if arr.shape[0] == 0:
+        return arr
+    if cfg.nsub == 1 and which % 2 == 1 and not (cfg.is_complex and which % 3 == 1):
+        arr = arr[:, 0]                  # 1-D input is allowed for a single subchannel
+    if not cfg.is_complex:
         return arr
     which = which % 3
     if which == 1:
         out = np.zeros((arr.shape[0], 2 * cfg.nsub), dtype=cfg.realdtype)
-        out[:, 0::2] = arr["r"]
-        out[:, 1::2] = arr["i"]
+        out[:, 0::2] = arr["r"].reshape(arr.shape[0], -1)
+        out[:, 1::2] = arr["i"].reshape(arr.shape[0], -1)
         return out
     if which == 2 and cfg.kind == "f":
         return (arr["r"].astype("f%d" % cfg.size) + 1j * arr["i"].astype("f%d" % cfg.size)).astype("c%d" % (2 * cfg.size))
